@@ -904,7 +904,27 @@ def c10(ix: Index) -> None:
             continue  # a sync handler cannot be interrupted; nothing to enforce
         ended = x['vt'] if x is not None else None
         if ended is not None and ended < deadline - EPS:
-            continue  # finished in time
+            # finished in time - unless it was CANCELLED before its own deadline without an enclosing handler's timeout explaining it
+            hc0 = next((r for r in ix.R if r['k'] == 'h_cancelled' and r['inv'] == inv), None)
+            if x['out'] == 'cancel' and hc0 is not None and hc0['vt'] < deadline - 1e-3:
+                explained = False
+                for up in ix.driver_chain(inv)[1:]:
+                    if isinstance(up, int) and up in ix.inv:
+                        to_up = ix.mk.get(ix.inv[up]['ev'], {}).get('timeout')
+                        if to_up is not None and ix.inv[up]['vt'] + to_up <= hc0['vt'] + 1e-3:
+                            explained = True
+                if not explained and not _stopped_buses(ix):
+                    ix.v('C10', 'handler-cancelled-before-its-own-timeout', None, ev=i['ev'], h=i['h'], deadline=deadline, cancelled_at=hc0['vt'])
+            continue
+        # the instant the cancellation was delivered to the handler body (it may need time to unwind after that)
+        # asyncio delivers a cancellation inside-out: handlers nested below this one (run by its inline drain) see it first and
+        # may take time to unwind (awaited cleanup) before this handler's own body sees it. "Cancelled at that time" therefore
+        # means: the cancellation reached this handler or the innermost handler running on its behalf at the deadline.
+        below = [r for r in ix.R if r['k'] == 'h_cancelled' and (r['inv'] == inv or inv in ix.driver_chain(r['inv'])[1:])]
+        if below and x is not None and x['out'] == 'cancel':
+            t_c = min(r['vt'] for r in below)
+            ended = t_c
+            x = dict(x, vt=t_c)
         ix.C['c10_timeouts_fired'] += 1
         fired.append(inv)
         res = next((q for q in fin.get(i['ev'], {}).get('results', []) if q['hid'] == f"B{i['bus']}.h{i['h']}"), None)
@@ -915,7 +935,18 @@ def c10(ix: Index) -> None:
                 ix.v('C10', 'handler-runs-past-timeout', None, ev=i['ev'], h=i['h'], deadline=deadline, exit=x and {'out': x['out'], 'vt': x['vt']}, late_ops=len(late_ops))
         # (b) result is a TimeoutError error
         if ix.sane and (res is None or res['status'] != 'error' or res['err'] != 'TimeoutError'):
-            if x is not None and x['out'] == 'cancel' or ended is None or ended > deadline + 1e-3:
+            # if an enclosing handler's own timeout fired before this handler had finished unwinding, the library reports the
+            # interruption by the parent (CancelledError) instead: both are "cancelled by a timeout", accept either
+            real_exit = ix.exit.get(inv)
+            enclosing_fired = False
+            for up in ix.driver_chain(inv)[1:]:
+                if isinstance(up, int) and up in ix.inv:
+                    to_up = ix.mk.get(ix.inv[up]['ev'], {}).get('timeout')
+                    if to_up is not None and real_exit is not None and ix.inv[up]['vt'] + to_up <= real_exit['vt'] + 1e-3:
+                        enclosing_fired = True
+            if enclosing_fired and res is not None and res['status'] == 'error' and res['err'] == 'CancelledError':
+                pass
+            elif x is not None and x['out'] == 'cancel' or ended is None or ended > deadline + 1e-3:
                 ix.v('C10', 'result-not-timeout-error', None, ev=i['ev'], h=i['h'], result=res)
     if not fired:
         return
@@ -930,7 +961,10 @@ def c10(ix: Index) -> None:
             for hi in ix.handlers_for(i['ev'], i['bus']):
                 n = sum(1 for q in ix.inv.values() if q['ev'] == i['ev'] and q['bus'] == i['bus'] and q['h'] == hi)
                 if n != 1:
-                    ix.v('C10', 'other-handler-of-event-not-run-once', None, ev=i['ev'], h=hi, n=n)
+                    # F5: the timed-out handler's own event was itself being processed inside the drain of an enclosing
+                    # handler that was cancelled by a timeout, so its processing was abandoned mid-way
+                    mech = 'F5' if any(p['b']['seq'] == i['pid'] for p in abandoned_procs(ix)) else None
+                    ix.v('C10', 'other-handler-of-event-not-run-once', mech, ev=i['ev'], h=hi, n=n)
         # events that were open in the drain of a timed-out handler are "touched" too
         for p in abandoned_procs(ix):
             touched.add(p['b']['ev'])
@@ -1128,19 +1162,15 @@ def c17(ix: Index) -> None:
             if errors_logged < len(begins):
                 ix.v('C17', 'failing-write-not-reported', None, bus=bi, failures=len(begins), error_records=errors_logged, kind=kind)
             continue
-        # healthy path (possibly with injected open/write failures): lines == attempts - injected failures, in order
-        ok_begins = []
-        for wb in begins:
-            failed = any(r['k'] == 'io_fault' and wb['seq'] < r['seq'] and r['seq'] < next((e['seq'] for e in ends.get(wb['ev'], []) if e['seq'] > wb['seq']), 10**12) for r in ix.R)
-            if failed:
-                ix.C['c17_failed_writes'] += 1
-            else:
-                ok_begins.append(wb)
-        if faults_injected and errors_logged < faults_injected and len(ix.sc['buses']) == 1:
-            ix.v('C17', 'failing-write-not-reported', None, bus=bi, failures=faults_injected, error_records=errors_logged, kind='injected')
-        if len(lines) != len(ok_begins):
-            ix.v('C17', 'line-count', None, bus=bi, lines=len(lines), expected=len(ok_begins), attempts=len(begins))
+        # healthy path (possibly with injected open/write failures on THIS bus's file): lines == attempts - injected failures
+        faults_here = [r for r in ix.R if r['k'] == 'io_fault' and r.get('bus') == bi]
+        ix.C['c17_failed_writes'] += len(faults_here)
+        if faults_here and errors_logged < len(faults_here):
+            ix.v('C17', 'failing-write-not-reported', None, bus=bi, failures=len(faults_here), error_records=errors_logged, kind='injected')
+        if len(lines) != len(begins) - len(faults_here):
+            ix.v('C17', 'line-count', None, bus=bi, lines=len(lines), expected=len(begins) - len(faults_here), attempts=len(begins), injected_failures=len(faults_here))
             continue
+        ok_begins = list(begins)
         # match lines to successful attempts by event id (two writes may be in flight at once on a parallel bus, so
         # the file order is only constrained for attempts that did not overlap)
         parsed = []
@@ -1157,7 +1187,10 @@ def c17(ix: Index) -> None:
         for k, wb in enumerate(ok_begins):
             j = next((j for j, (d, back, _ln) in enumerate(parsed) if j not in used and back is not None and back.event_id == wb['eid']), None)
             if j is None:
-                ix.v('C17', 'line-missing-for-processed-event', None, bus=bi, ev=wb['ev'])
+                # legitimate only for an attempt that an injected failure hit: a fault of this bus lies inside its interval
+                e_seq = next((e['seq'] for e in ends.get(wb['ev'], []) if e['seq'] > wb['seq']), 10**12)
+                if not any(wb['seq'] < f['seq'] < e_seq for f in faults_here):
+                    ix.v('C17', 'line-missing-for-processed-event', None, bus=bi, ev=wb['ev'])
                 continue
             used.add(j)
             pos_of[k] = j
